@@ -224,7 +224,21 @@ EXTRA_ATOMS = ['c"a_b"', '"a_b"', "'100%'", '"path\\to"', "f=foo_bar", "f=foo*",
                "P3-1", "@home", "!@home", "!#work", "!#home", "!%bob", "!@work", "!+home", "#work", "%home", "#a1", "+proj_x", "%x9", "k:val", "k:>val", "!k:>=x9"]
 
 
+# several text atoms in one AND-group: case-sensitive (upper case / c'..'), case-insensitive, negated, in every order
+TEXT_ATOMS = ['"Foo"', '!"Foo"', '"Bar"', '!"Bar"', "c'foo'", "!c'foo'", "c'bar'", "!c'bar'", "'FOO'", "!'FOO'", "'foo'", "!'bar'",
+              '"plain"', "!c'done'", "'x9'", '!"a_b"', "c'a-b'", '!"(p)"']
+
+
 def gen_query(rng, today):
+    if rng.random() < 0.15:
+        atoms = rng.sample(TEXT_ATOMS, rng.randint(2, 3))
+        if rng.random() < 0.3:
+            atoms.append(rng.choice(EXTRA_ATOMS))
+        rng.shuffle(atoms)
+        t = " ".join(atoms)
+        if rng.random() < 0.25:
+            t = "(%s) | %s" % (t, rng.choice(TEXT_ATOMS))
+        return "W " + t
     if rng.random() < 0.55:
         atoms = [rng.choice(EXTRA_ATOMS) for _ in range(rng.randint(1, 3))]
         if rng.random() < 0.3:
